@@ -26,11 +26,13 @@ import (
 // ---------------------------------------------------------------------------------------------
 
 type cutStream struct {
-	name     string
-	data     []byte   // the full stream
-	tailAt   int      // offset where the recorded log starts (== len(data) when there is none)
-	expected []string // dumps at the commit boundaries: expected[k] = state + first k logged commits
-	schema   func() *column.Collection
+	name       string
+	data       []byte   // the full stream
+	tailAt     int      // offset where the recorded log starts (== len(data) when there is none)
+	expected   []string // dumps at the commit boundaries: expected[k] = state + first k logged commits
+	schema     func() *column.Collection
+	sparseCuts bool     // few random cuts (huge stream)
+	whole      [][]byte // huge stream: the serialized commits of the uncut log
 }
 
 type countingWriter struct {
@@ -80,6 +82,46 @@ func truncDump(c *column.Collection) string {
 // buildSnapshotStream: a populated collection, a snapshot, and `tail` commits that land while the
 // recorder is open (issued from the "s:written" yield point, where the snapshot holds no lock)
 func buildSnapshotStream(r *rand.Rand, name string, kind, rowsN, tail int, bigCommit bool) cutStream {
+	return buildSnapshotStreamOpt(r, name, kind, rowsN, tail, bigCommit, false, 0)
+}
+
+// stateChunkIDs parses the (decompressed) state section of a snapshot and returns the last commit id
+// stored with every chunk — independently of readState
+func stateChunkIDs(state []byte) (ids []uint64, ok bool) {
+	plain, err := io.ReadAll(s2.NewReader(bytes.NewReader(state)))
+	if err != nil {
+		return nil, false
+	}
+	defer func() {
+		if recover() != nil {
+			ids, ok = nil, false
+		}
+	}()
+	pos := 0
+	uv := func() uint64 {
+		v, n := binary.Uvarint(plain[pos:])
+		if n <= 0 {
+			panic("uvarint")
+		}
+		pos += n
+		return v
+	}
+	_, columns, chunks := uv(), uv(), uv()
+	for ch := uint64(0); ch < chunks; ch++ {
+		ids = append(ids, uv())
+		for b := uint64(0); b < columns; b++ {
+			pos += int(uv()) // column name
+			pos += 4
+			pos += int(uv()) * 12
+			pos += int(uv())
+		}
+	}
+	return ids, pos == len(plain)
+}
+
+// early: number of commits made right after the recorder was installed, before any chunk is written:
+// they are in the chunk states AND in the recorded log, and Restore must skip them by commit id
+func buildSnapshotStreamOpt(r *rand.Rand, name string, kind, rowsN, tail int, bigCommit, huge bool, early int) cutStream {
 	schema := truncSchema(kind)
 	lg := &streamLogger{kind: "log"}
 	c := schema()
@@ -112,6 +154,20 @@ func buildSnapshotStream(r *rand.Rand, name string, kind, rowsN, tail int, bigCo
 	var logged []streamCommit
 	column.VerifSetYield(func(p string) {
 		switch p {
+		case "s:opened":
+			for k := 0; k < early; k++ {
+				o := offs[0] // the same row of chunk 1 and the same row of chunk 0 in turn
+				if k%2 == 0 && len(offs) > 4 {
+					o = offs[4]
+				}
+				c.Query(func(txn *column.Txn) error {
+					return txn.QueryAt(o, func(row column.Row) error {
+						row.SetInt32("n", int32(7000+k))
+						row.MergeString("s", "!")
+						return nil
+					})
+				})
+			}
 		case "s:written":
 			// capture the commits through a logger installed for the window only
 			for k := 0; k < tail; k++ {
@@ -126,6 +182,30 @@ func buildSnapshotStream(r *rand.Rand, name string, kind, rowsN, tail int, bigCo
 						return nil
 					})
 				})
+				if huge && k == 0 && len(offs) > 4 {
+					// one transaction alternating between a row of chunk 0 and a row of chunk 1, > 1 MB per
+					// chunk: each of its two commits spans more than one s2 block of the recorded log
+					c.Query(func(txn *column.Txn) error {
+						// 300k alternations: every column buffer of the commit has ~150k sections, so its
+						// section table alone (8 bytes per section) is longer than one 1 MB block — a block
+						// boundary of the recorded log falls inside a table (whose read errors the decoder
+						// ignores) as well as inside the data
+						for j := 0; j < 300000; j++ {
+							o := offs[0]
+							if j%2 == 1 {
+								o = offs[4]
+							}
+							txn.QueryAt(o, func(row column.Row) error {
+								row.SetInt32("n", int32(5000+j))
+								if j%1000 == 0 {
+									row.SetString("s", strings.Repeat(string(rune('a'+j%26)), 3000))
+								}
+								return nil
+							})
+						}
+						return nil
+					})
+				}
 				if k%2 == 1 && len(offs) > 1 {
 					o2 := offs[(k*3)%len(offs)]
 					c.Query(func(txn *column.Txn) error {
@@ -145,12 +225,16 @@ func buildSnapshotStream(r *rand.Rand, name string, kind, rowsN, tail int, bigCo
 		panic("trunc: snapshot failed: " + err.Error())
 	}
 	data := w.buf.Bytes()
-	cs := cutStream{name: name, data: data, tailAt: w.markAt, schema: schema}
+	cs := cutStream{name: name, data: data, tailAt: w.markAt, schema: schema, sparseCuts: huge}
 	// commit boundaries: restore(state only), then replay the logged commits one by one
 	var commits []commit.Commit
 	lr := commit.Open(bytes.NewReader(data[w.markAt:]))
 	lr.Range(func(cm commit.Commit) error { commits = append(commits, cm); return nil })
 	_ = logged
+	ids, idsOK := stateChunkIDs(data[:w.markAt])
+	if !idsOK {
+		panic("trunc: cannot parse the state section")
+	}
 	for k := 0; k <= len(commits); k++ {
 		q := schema()
 		if err := q.Restore(bytes.NewReader(data[:w.markAt])); err != nil {
@@ -160,6 +244,10 @@ func buildSnapshotStream(r *rand.Rand, name string, kind, rowsN, tail int, bigCo
 		lr := commit.Open(bytes.NewReader(data[w.markAt:]))
 		lr.Range(func(cm commit.Commit) error { cs2 = append(cs2, cm); return nil })
 		for _, cm := range cs2[:k] {
+			// reference replay: a logged commit is applied iff it is newer than the id stored with its chunk
+			if int(cm.Chunk) < len(ids) && cm.ID <= ids[cm.Chunk] {
+				continue
+			}
 			q.Replay(cm)
 		}
 		cs.expected = append(cs.expected, truncDump(q))
@@ -246,6 +334,29 @@ func rangeCut(tail []byte) (n int, failed bool, panicked string) {
 	return n, err != nil, ""
 }
 
+// rangeWhole: Log.Range over a cut log; every delivered commit, serialized inside the callback, must be
+// byte-identical to the commit at the same position of the uncut log (a commit delivered in part is not)
+func rangeWhole(tail []byte, whole [][]byte) (n int, partial int, panicked string) {
+	defer func() {
+		if r := recover(); r != nil {
+			panicked = fmt.Sprint(r)
+		}
+	}()
+	partial = -1
+	commit.Open(bytes.NewReader(tail)).Range(func(cm commit.Commit) error {
+		var b bytes.Buffer
+		cm.WriteTo(&b)
+		if n >= len(whole) || !bytes.Equal(b.Bytes(), whole[n]) {
+			if partial < 0 {
+				partial = n
+			}
+		}
+		n++
+		return nil
+	})
+	return
+}
+
 func runTrunc(rep *Report, replay string) {
 	r := rand.New(rand.NewSource(rep.Seed))
 	var streams []cutStream
@@ -255,6 +366,9 @@ func runTrunc(rep *Report, replay string) {
 		buildSnapshotStream(r, "small-tail3", 1, 8, 3, false),
 		buildSnapshotStream(r, "two-chunks-tail5", 0, 25, 5, false),
 		buildSnapshotStream(r, "enum-index-tail2", 1, 12, 2, false),
+		buildSnapshotStreamOpt(r, "multi-block-commit-tail2", 0, 10, 2, false, true, 0),
+		buildSnapshotStreamOpt(r, "early4-tail3", 0, 10, 3, false, false, 4),
+		buildSnapshotStreamOpt(r, "early6-tail0", 1, 15, 0, false, false, 6),
 	)
 	if rep.Tier == "thorough" {
 		streams = append(streams,
@@ -289,7 +403,11 @@ func runTrunc(rep *Report, replay string) {
 					cuts[n] = true
 				}
 			}
-			for i := 0; i < 400; i++ {
+			nRand := 400
+			if cs.sparseCuts {
+				nRand = 250
+			}
+			for i := 0; i < nRand; i++ {
 				cuts[r.Intn(len(cs.data)+1)] = true
 			}
 			cuts[len(cs.data)] = true
@@ -330,6 +448,27 @@ func runTrunc(rep *Report, replay string) {
 					writeReplay(rep.Property, "trunc", &v)
 					rep.Violations = append(rep.Violations, v)
 				}
+			}
+			// huge stream: implementation-only oracle for the log part (whole commits only)
+			if n >= cs.tailAt && cs.sparseCuts {
+				if cs.whole == nil {
+					commit.Open(bytes.NewReader(cs.data[cs.tailAt:])).Range(func(cm commit.Commit) error {
+						var b bytes.Buffer
+						cm.WriteTo(&b)
+						cs.whole = append(cs.whole, b.Bytes())
+						return nil
+					})
+				}
+				got, partial, pan := rangeWhole(cs.data[cs.tailAt:n], cs.whole)
+				if pan != "" || partial >= 0 {
+					v := Violation{Property: rep.Property, Kind: "oracle", Clause: fmt.Sprintf("[%s] Log.Range over the first %d of %d log bytes delivered %d commits; commit #%d differs from the commit written (delivered in part) %s", cs.name, n-cs.tailAt, len(cs.data)-cs.tailAt, got, partial, pan),
+						Script: []string{"stream " + cs.name, fmt.Sprintf("cut %d", n)}}
+					if len(rep.Violations) < 5 {
+						writeReplay(rep.Property, "trunc", &v)
+						rep.Violations = append(rep.Violations, v)
+					}
+				}
+				continue
 			}
 			// correspondence for the log part
 			if n >= cs.tailAt && ok {
